@@ -540,7 +540,24 @@ def rule_r5(ctx):
                   how="byte builders called by both siblings", construct=f"builders tobytes={sorted(bb)} tofile={sorted(bf)}")
         # endianness handling identical
         def le(f):
-            return sorted(norm(n) for n in own_nodes(f.node) if isinstance(n, ast.If) and "_IS_LITTLE_ENDIAN" in norm(n.test))
+            """The byte-order conversions of f: `<x>.astype(<x>.dtype.newbyteorder('<'))` on the big-endian side of an
+            `_IS_LITTLE_ENDIAN` test (either polarity, any local names)."""
+            out = []
+            for n in own_nodes(f.node):
+                if not (isinstance(n, ast.If) and "_IS_LITTLE_ENDIAN" in norm(n.test)):
+                    continue
+                neg = isinstance(n.test, ast.UnaryOp) and isinstance(n.test.op, ast.Not)
+                side = list(n.body if neg else n.orelse)
+                if not neg and n.body and isinstance(n.body[-1], ast.Return):
+                    # `if _IS_LITTLE_ENDIAN: return x` - what follows in the block is the big-endian side
+                    blk = next((b for b in (getattr(getattr(n, "_parent", None), fld, None) for fld in ("body", "orelse", "finalbody"))
+                                if isinstance(b, list) and n in b), [])
+                    side += blk[blk.index(n) + 1 :] if n in blk else []
+                for st in side:
+                    for c in ast.walk(st):
+                        if isinstance(c, ast.Call) and isinstance(c.func, ast.Attribute) and c.func.attr == "astype" and "newbyteorder('<')" in norm(c):
+                            out.append("astype(dtype.newbyteorder('<')) when not _IS_LITTLE_ENDIAN")
+            return sorted(set(out))
         helper = repo.func("onnx_ir._core:_create_np_array_for_byte_representation")
         if ck.endswith(":Tensor"):
             ctx.check("R5", "Tensor byte builder normalises endianness", bool(le(helper)), helper, helper.node,
